@@ -401,6 +401,18 @@ func (fx *FuncCtx) checkStoreRange(st *State, sv SliceV, lo, n Term, node ast.No
 // checkCallFrame: the callee's write family lies inside ours.
 func (fx *FuncCtx) checkCallFrame(st *State, f famInst, node ast.Node, what string) {
 	fx.curNode = node
+	if av, ok := fx.arrViewSrc[f.sl.Rid.S]; ok && fx.goDepth == 0 {
+		// the callee writes through a slice of an array (argument a[:]): the array itself becomes
+		// unknown; if it lives in a heap object that is a modification of that object, which the
+		// function's modifies clause has to allow (checked at exit)
+		v, facts := fx.freshVal("arrhavoc", av.t)
+		for _, fc := range facts {
+			st.assume(fc)
+		}
+		fx.assignTo(st, av.src, v, av.t)
+		st.written = tTrue
+		return
+	}
 	if fx.goDepth == 0 && len(fx.outstanding) > 0 && what != "goroutine footprint" {
 		s2 := st.clone()
 		var rng []Term
